@@ -1,5 +1,5 @@
 SPECIFICATION Spec
 CONSTANTS
-  Keys = {"rsa4096", "rsa3072p", "ed25519", "ecdsa"}
+  Keys = {"rsa4096", "rsa3072p", "ed25519", "ecdsa", "assetsub"}
   MaxLen = 3
 CHECK_DEADLOCK FALSE
